@@ -999,6 +999,8 @@ package router
 //@   callsite cancel : [gate] arg1 == sess && (isnil(r.authorizer) || sess == r.metaSess || authzAllowed(r, sess, box(arg2)))
 //@   callsite yield : [gate] arg1 == sess && (isnil(r.authorizer) || sess == r.metaSess || authzAllowed(r, sess, box(arg2)))
 //@   callsite error : [gate] arg1 == sess && (isnil(r.authorizer) || sess == r.metaSess || authzAllowed(r, sess, box(arg2))) && arg2.Type == wamp.INVOCATION
+//@   returnsite : [client-initiated-leave-only-if-allowed] (!result0 && !result1 && isnil(result2) && open) ==> (isnil(r.authorizer) || sess == r.metaSess || authzAllowed(r, sess, box(msg)))
+//@   sendsite reply wamp.Message : [goodbye-answered-only-if-allowed] (is(m, *wamp.Goodbye) && open) ==> (isnil(r.authorizer) || sess == r.metaSess || authzAllowed(r, sess, box(msg)))
 //@   callsite publish : [routed-to-own-realm] arg0 == r.broker
 //@   callsite call : [routed-to-own-realm] arg0 == r.dealer
 
@@ -1096,3 +1098,77 @@ package router
 //@   captures r != nil && sess != nil && !isnil(sess.Peer)
 //@   partial
 //@   callsite onLeave : [leave-with-the-handlers-verdict] arg1 == sess && arg2 == shutdown && arg3 == killAll
+
+// ---------------------------------------------------------------------------
+// Meta procedures that read broker / dealer state (run as actions on the
+// owning goroutine, where the component invariant holds between actions)
+
+//@ chaninv func() : v != nil
+//@ mapinv map[wamp.ID]*wamp.Session : v != nil
+
+//@ closure (b *broker) subList 1
+//@   on broker
+//@   props C18 C04
+//@   requires brokerInv(b)
+
+//@ closure (b *broker) subLookup 1
+//@   on broker
+//@   props C18 C04
+//@   requires brokerInv(b)
+//@   returnsite : [id-of-the-entry-for-topic-and-policy] topic in subTable(b, match) ==> subID == subTable(b, match)[topic].id && subID in b.subscriptions
+
+//@ closure (b *broker) subMatch 1
+//@   on broker
+//@   props C18 C04
+//@   requires brokerInv(b)
+
+//@ closure (b *broker) subGet 1
+//@   on broker
+//@   props C18 C04
+//@   requires brokerInv(b)
+//@   returnsite : [details-of-the-subscription] subID in b.subscriptions ==> dict != nil && dict["id"] == box(subID) && dict["uri"] == box(b.subscriptions[subID].topic) && dict["match"] == box(b.subscriptions[subID].match) && dict["created"] == box(b.subscriptions[subID].created)
+
+//@ closure (b *broker) subListSubscribers 1
+//@   on broker
+//@   props C18 C04
+//@   requires brokerInv(b)
+//@   returnsite : [one-entry-per-subscriber] subID in b.subscriptions ==> len(subscriberIDs) == len(b.subscriptions[subID].subscribers)
+
+//@ closure (b *broker) subCountSubscribers 1
+//@   on broker
+//@   props C18 C04
+//@   requires brokerInv(b)
+//@   returnsite : [count-is-the-number-of-subscribers] subID in b.subscriptions ==> count == len(b.subscriptions[subID].subscribers)
+//@   returnsite : [unknown-subscription-flagged] !(subID in b.subscriptions) ==> !ok
+
+//@ closure (d *dealer) regList 1
+//@   on dealer
+//@   props C18 C04
+//@   requires dealerInv(d)
+
+//@ closure (d *dealer) regLookup 1
+//@   on dealer
+//@   props C18 C04
+//@   requires dealerInv(d)
+//@   sendsite answer wamp.ID : [id-of-the-entry-for-procedure-and-policy] (procedure in regTable(d, match) ==> m == regTable(d, match)[procedure].id && m in d.registrations) && (!(procedure in regTable(d, match)) ==> m == 0)
+
+//@ closure (d *dealer) regGet 1
+//@   on dealer
+//@   props C18 C04
+//@   requires dealerInv(d)
+//@   returnsite : [details-of-the-registration] regID in d.registrations ==> dict != nil && dict["id"] == box(regID) && dict["uri"] == box(d.registrations[regID].procedure) && dict["match"] == box(d.registrations[regID].match) && dict["invoke"] == box(d.registrations[regID].policy)
+
+//@ closure (d *dealer) regListCallees 1
+//@   on dealer
+//@   props C18 C04
+//@   requires dealerInv(d)
+//@   returnsite : [one-entry-per-callee] regID in d.registrations ==> len(calleeIDs) == len(d.registrations[regID].callees) && calleeIDs != nil
+//@   loop range reg.callees
+//@     invariant [filled] forall k mathint :: 0 <= k && k <= rangeindex ==> calleeIDs[k] == d.registrations[regID].callees[k].ID
+
+//@ closure (d *dealer) regCountCallees 1
+//@   on dealer
+//@   props C18 C04
+//@   requires dealerInv(d)
+//@   returnsite : [count-is-the-number-of-callees] regID in d.registrations ==> count == len(d.registrations[regID].callees)
+//@   returnsite : [unknown-registration-flagged] !(regID in d.registrations) ==> !ok
